@@ -14,6 +14,7 @@
 """
 import json, math, random, itertools
 from vf import core
+from vf.num import gt, nmax as max, nmin as min
 
 PROPERTY = "C20"
 EPS = 2.0 ** -52
@@ -92,13 +93,13 @@ def run_case(case):
                     cells.add(json.dumps(['units', l, t, m]))
         P0 = periods[0][0]
         for P, tri in periods:
-            if abs(P / P0 - 1) > 1e-12:
+            if gt(abs(P / P0 - 1), 1e-12):
                 add('units:period-depends-on-unit-system', 'period of 1 au / 1 msun orbit is %r s in %r but %r s in %r' % (P, tri, P0, periods[0][1]))
                 break
-        if abs(P0 / JY - 1) > 3e-4:
+        if gt(abs(P0 / JY - 1), 3e-4):
             add('units:period-of-1au-1msun-orbit-not-a-year', '%r s' % P0)
         g1 = Gs.get(('au', 'yr2pi', 'msun'))
-        if g1 is None or abs(g1 - 1) > 1e-12:
+        if g1 is None or gt(abs(g1 - 1), 1e-12):
             add('units:yr2pi-does-not-give-G=1', repr(g1))
         for grp in ALIASES:
             for a, b in zip(grp, grp[1:]):
@@ -127,15 +128,15 @@ def run_case(case):
             for p, q in zip(sim.particles, s2.particles):
                 for f in ('m', 'x', 'y', 'z', 'vx', 'vy', 'vz', 'r'):
                     a_, b_ = getattr(p, f), getattr(q, f)
-                    if abs(a_ - b_) > 16 * EPS * abs(b_):
+                    if gt(abs(a_ - b_), 16 * EPS * abs(b_)):
                         add('units:conversion-not-transitive', '%r->%r->%r vs direct: %s %r vs %r' % (A, Bu, C, f, a_, b_))
-            if abs(sim.G - s2.G) > 16 * EPS * abs(s2.G):
+            if gt(abs(sim.G - s2.G), 16 * EPS * abs(s2.G)):
                 add('units:G-after-conversion-chain', '%r vs %r' % (sim.G, s2.G))
             s3.convert_particle_units(*Bu)
             s3.convert_particle_units(*A)
             for p, o in zip(s3.particles, orig):
                 for f, ov in zip(('m', 'x', 'y', 'z', 'vx', 'vy', 'vz', 'r'), o):
-                    if abs(getattr(p, f) - ov) > 16 * EPS * abs(ov):
+                    if gt(abs(getattr(p, f) - ov), 16 * EPS * abs(ov)):
                         add('units:conversion-not-reversible', '%r->%r->%r: %s %r vs %r' % (A, Bu, A, f, getattr(p, f), ov))
     elif kind == 'rotations':
         from rebound import Rotation
@@ -164,10 +165,10 @@ def run_case(case):
                 return False
             v = rv(10 ** r.uniform(-3, 3))
             w = rot(q, v)
-            if abs(nrm(w) - nrm(v)) > 32 * EPS * nrm(v):
+            if gt(abs(nrm(w) - nrm(v)), 32 * EPS * nrm(v)):
                 add('rotation:length-not-preserved:%s' % label, '|v|=%r |qv|=%r %s' % (nrm(v), nrm(w), info))
             back = rot(q.inverse(), w)
-            if max(abs(back[i] - v[i]) for i in range(3)) > (64 * EPS if label != 'slerp' else 1e-11) * nrm(v):
+            if gt(max(abs(back[i] - v[i]) for i in range(3)), (64 * EPS if label != 'slerp' else 1e-11) * nrm(v)):
                 add('rotation:inverse:%s' % label, '%s' % info)
             return True
         for _ in range(case['n']):
@@ -179,12 +180,12 @@ def run_case(case):
                 if check_rotation(q, which, 'angle=%r axis=%r' % (ang, ax)):
                     # rotating the axis leaves it unchanged; a vector perpendicular turns by the angle
                     w = rot(q, ax)
-                    if max(abs(w[i] - ax[i]) for i in range(3)) > 64 * EPS * nrm(ax):
+                    if gt(max(abs(w[i] - ax[i]) for i in range(3)), 64 * EPS * nrm(ax)):
                         add('rotation:angle_axis-moves-its-axis', 'angle=%r axis=%r' % (ang, ax))
                     perp = [ax[1], -ax[0], 0.0] if abs(ax[0]) + abs(ax[1]) > 0 else [1.0, 0.0, 0.0]
                     w = rot(q, perp)
                     c = sum(w[i] * perp[i] for i in range(3)) / (nrm(perp) ** 2)
-                    if abs(c - math.cos(ang)) > 64 * EPS * (1 + abs(ang)):
+                    if gt(abs(c - math.cos(ang)), 64 * EPS * (1 + abs(ang))):
                         add('rotation:angle_axis-wrong-angle', 'angle=%r cos from rotation %r' % (ang, c))
             elif which in ('from_to', 'from_to_degenerate'):
                 a = rv(10 ** r.uniform(-3, 3))
@@ -215,7 +216,7 @@ def run_case(case):
                 w = rot(q, a)
                 bn = [x_ / nrm(b) * nrm(a) for x_ in b]
                 tol = 256 * EPS * nrm(a) if lab != 'nearly-antiparallel' else 1e-5 * nrm(a)
-                if ok and max(abs(w[i] - bn[i]) for i in range(3)) > tol:
+                if ok and gt(max(abs(w[i] - bn[i]) for i in range(3)), tol):
                     add('rotation:from_to-does-not-map-from-onto-to:%s' % lab, '%s: q*from=%r expected %r' % (info, w, bn))
                 cells.add(json.dumps(['rotation', 'from_to', lab]))
                 continue
@@ -241,14 +242,14 @@ def run_case(case):
                     px_ = [nx[i] - d_ * nz[i] for i in range(3)]
                     amp = nrm(nx) / max(nrm(px_), 1e-300)        # newx nearly parallel to newz: its perpendicular part is ill conditioned
                     # composition of two (possibly two-stage) from_to rotations: a few thousand eps
-                    if abs(w[0]) > 256 * EPS * nrm(nz) * amp or abs(w[1]) > 256 * EPS * nrm(nz) * amp or w[2] < 0:
+                    if gt(abs(w[0]), 256 * EPS * nrm(nz) * amp) or gt(abs(w[1]), 256 * EPS * nrm(nz) * amp) or not (w[2] >= 0):
                         add('rotation:to_new_axes-newz-not-on-z', '%s: q*newz=%r' % (info, w))
                     # the component of newx perpendicular to newz must land on +x
                     d = sum(nx[i] * nz[i] for i in range(3)) / nrm(nz) ** 2
                     px = [nx[i] - d * nz[i] for i in range(3)]
                     if nrm(px) > 1e-6 * nrm(nx):
                         w = rot(q, px)
-                        if abs(w[1]) > 1e-12 * nrm(px) * amp or abs(w[2]) > 1e-12 * nrm(px) * amp or w[0] < 0:
+                        if gt(abs(w[1]), 1e-12 * nrm(px) * amp) or gt(abs(w[2]), 1e-12 * nrm(px) * amp) or not (w[0] >= 0):
                             add('rotation:to_new_axes-newx-not-on-x', '%s: q*newx_perp=%r' % (info, w))
             elif which == 'orbit':
                 Om, inc, om = r.uniform(0, 2 * math.pi), r.choice([r.uniform(1e-3, math.pi - 1e-3), 0.0, math.pi]), r.uniform(0, 2 * math.pi)
@@ -259,12 +260,14 @@ def run_case(case):
                     q2 = Rotation.orbit(Omega=O2, inc=i2, omega=o2)
                     v = rv()
                     w1, w2 = rot(q, v), rot(q2, v)
-                    if max(abs(w1[i] - w2[i]) for i in range(3)) > 1e-7 * nrm(v):
+                    if not all(math.isfinite(a_) for a_ in (O2, i2, o2)):
+                        add('rotation:orbital-angles-not-finite', '%s -> (%r,%r,%r)' % (info, O2, i2, o2))
+                    elif not (max(abs(w1[i] - w2[i]) for i in range(3)) <= 1e-7 * nrm(v)):
                         add('rotation:orbital-angles-do-not-reproduce-rotation', '%s -> (%r,%r,%r)' % (info, O2, i2, o2))
                     # x axis of the orbital frame: pericentre direction (M&D 2.121)
                     w = rot(q, [1.0, 0, 0])
                     ex = [math.cos(Om) * math.cos(om) - math.sin(Om) * math.sin(om) * math.cos(inc), math.sin(Om) * math.cos(om) + math.cos(Om) * math.sin(om) * math.cos(inc), math.sin(om) * math.sin(inc)]
-                    if max(abs(w[i] - ex[i]) for i in range(3)) > 64 * EPS:
+                    if gt(max(abs(w[i] - ex[i]) for i in range(3)), 64 * EPS):
                         add('rotation:orbit-pericentre-direction', info)
             elif which == 'slerp':
                 q1 = Rotation(angle=r.uniform(-3, 3), axis=rv())
@@ -274,7 +277,7 @@ def run_case(case):
                 if check_rotation(q, which, 't=%r' % t):
                     v = rv()
                     tgt = rot(q1 if t == 0.0 else q2, v) if t in (0.0, 1.0) else None
-                    if tgt is not None and max(abs(rot(q, v)[i] - tgt[i]) for i in range(3)) > 256 * EPS * nrm(v):
+                    if tgt is not None and gt(max(abs(rot(q, v)[i] - tgt[i]) for i in range(3)), 256 * EPS * nrm(v)):
                         add('rotation:slerp-endpoints', 't=%r' % t)
             elif which == 'compose':
                 p_ = Rotation(angle=r.uniform(-3, 3), axis=rv())
@@ -283,11 +286,11 @@ def run_case(case):
                 a1 = rot(p_ * q_, v)
                 a2 = rot(p_, rot(q_, v))
                 check_rotation(p_ * q_, which, '')
-                if max(abs(a1[i] - a2[i]) for i in range(3)) > 64 * EPS * nrm(v):
+                if gt(max(abs(a1[i] - a2[i]) for i in range(3)), 64 * EPS * nrm(v)):
                     add('rotation:composition', '(pq)v != p(qv)')
                 idq = (p_ * p_.inverse())
                 w = rot(idq, v)
-                if max(abs(w[i] - v[i]) for i in range(3)) > 64 * EPS * nrm(v):
+                if gt(max(abs(w[i] - v[i]) for i in range(3)), 64 * EPS * nrm(v)):
                     add('rotation:q-times-inverse-not-identity', '')
             cells.add(json.dumps(['rotation', which]))
         # simulation rotation
@@ -305,12 +308,12 @@ def run_case(case):
             E1 = sim.energy()
             L1 = sim.angular_momentum()
             d1 = [[math.dist((p.x, p.y, p.z), (q_.x, q_.y, q_.z)) for q_ in sim.particles] for p in sim.particles]
-            if abs(E1 - E0) > 256 * EPS * abs(E0):
+            if gt(abs(E1 - E0), 256 * EPS * abs(E0)):
                 add('rotation:sim-energy-changed', '%r -> %r' % (E0, E1))
-            if max(abs(d1[i][j] - d0[i][j]) for i in range(sim.N) for j in range(sim.N)) > 64 * EPS * max(max(row) for row in d0):
+            if gt(max(abs(d1[i][j] - d0[i][j]) for i in range(sim.N) for j in range(sim.N)), 64 * EPS * max(max(row) for row in d0)):
                 add('rotation:sim-pair-distance-changed', '')
             Lr = rot(q, list(L0))
-            if max(abs(Lr[i] - L1[i]) for i in range(3)) > 256 * EPS * nrm(list(L0)):
+            if gt(max(abs(Lr[i] - L1[i]) for i in range(3)), 256 * EPS * nrm(list(L0))):
                 add('rotation:sim-angular-momentum-not-rotated', 'L0=%r rotated %r L1=%r' % (list(L0), Lr, list(L1)))
             cells.add(json.dumps(['rotation', 'simulation']))
     elif kind == 'frames':
@@ -361,13 +364,13 @@ def run_case(case):
             scale = float(np.abs(real0).max()) + 1e-300
             if shift == 'com':
                 c1 = (m0[:, None] * real1).sum(axis=0) / Mt
-                if float(np.abs(c1).max()) > 16 * EPS * scale * N:
+                if gt(float(np.abs(c1).max()), 16 * EPS * scale * N):
                     add('frame:move_to_com-com-not-at-rest-at-origin', 'COM after = %r' % [float(q) for q in c1])
             else:
                 if any(float(q) != 0.0 for q in real1[0]):
                     add('frame:move_to_hel-particle0-not-at-origin', repr([float(q) for q in real1[0]]))
             want = real0 - ref
-            if float(np.abs(real1 - want).max()) > 8 * EPS * scale:
+            if gt(float(np.abs(real1 - want).max()), 8 * EPS * scale):
                 add('frame:%s-relative-coordinates-changed' % shift, 'max deviation %.3e' % float(np.abs(real1 - want).max()))
             # first-order variational particles: derivative of x_i - ref(x, m)
             for vi, vv in enumerate(vars_):
@@ -380,7 +383,7 @@ def run_case(case):
                 wantv = var0[vi] - dref
                 gotv = np.array([[vv.particles[i].x, vv.particles[i].y, vv.particles[i].z, vv.particles[i].vx, vv.particles[i].vy, vv.particles[i].vz] for i in range(N)], dtype=ld)
                 vs = float(np.abs(var0[vi]).max()) + float(np.abs(dref).max()) + 1e-300
-                if float(np.abs(gotv - wantv).max()) > 64 * EPS * vs * N * (1 + scale):
+                if gt(float(np.abs(gotv - wantv).max()), 64 * EPS * vs * N * (1 + scale)):
                     add('frame:%s-variational-particles-not-shifted-consistently' % shift, 'N=%d: variational particle coordinates after the shift differ from d/dp of the shifted state by %.3e (scale %.3e)' % (
                         N, float(np.abs(gotv - wantv).max()), vs))
             if v2 is not None:
@@ -401,7 +404,7 @@ def run_case(case):
                 mixed = bool(np.any(dm0[0] != 0) and np.any(dm0[1] != 0))
                 if mixed:
                     counters['second_order_shifts_with_two_mass_variations'] = counters.get('second_order_shifts_with_two_mass_variations', 0) + 1
-                if float(np.abs(got2 - want2).max()) > 256 * EPS * vs2 * N * (1 + scale) * (1 + float(np.abs(dm0[0]).max() + np.abs(dm0[1]).max()) / float(Mt)) ** 2:
+                if gt(float(np.abs(got2 - want2).max()), 256 * EPS * vs2 * N * (1 + scale) * (1 + float(np.abs(dm0[0]).max() + np.abs(dm0[1]).max()) / float(Mt)) ** 2):
                     add('frame:%s-second-order-variational-particles-not-shifted-consistently' % shift, 'N=%d: second-order variational coordinates after the shift differ from d2/dp dq of the shifted state by %.3e (scale %.3e; both parents vary masses: %r)' % (
                         N, float(np.abs(got2 - want2).max()), vs2, mixed))
             cells.add(json.dumps(['frame', shift, nvar > 0, v2 is not None]))
@@ -439,7 +442,7 @@ def run_case(case):
             if a != 0:
                 t = s1 / a
                 for p, o in zip(t.particles, base):
-                    if max(abs(getattr(p, f) - o[i] / a) for i, f in enumerate(('x', 'y', 'z', 'vx', 'vy', 'vz'))) > 4 * EPS * max(abs(q) for q in o) / abs(a):
+                    if gt(max(abs(getattr(p, f) - o[i] / a) for i, f in enumerate(('x', 'y', 'z', 'vx', 'vy', 'vz'))), 4 * EPS * max(abs(q) for q in o) / abs(a)):
                         add('linear:div', 'sim/scalar')
                         break
             s3 = rebound.Simulation()
